@@ -9,7 +9,6 @@ import (
 	"errors"
 	"fmt"
 	"io"
-	"os"
 	"sort"
 	"strconv"
 
@@ -25,6 +24,11 @@ type xfCase struct {
 	Src string    `json:"src,omitempty"` // ReadFrom source kind
 	RFC int       `json:"rf_concurrency,omitempty"`
 	RW  bool      `json:"open_rdwr"`
+	// Open names the open mode (xfOpenModeList); "": O_RDONLY for reads, O_WRONLY|O_CREATE for writes, O_RDWR|O_CREATE
+	// when open_rdwr is set. For the modes that empty the file (O_TRUNC, Create(), O_EXCL on a new name) file_len is
+	// the size AFTER the open, i.e. 0, and pre_open_len what the name held before (O_EXCL: nothing).
+	Open   string `json:"open,omitempty"`
+	PreLen int    `json:"pre_open_len,omitempty"`
 	// geometry
 	FileLen int   `json:"file_len"`
 	Off     int64 `json:"off"`
@@ -50,8 +54,39 @@ func (cs xfCase) Text() string {
 	if cs.StatFail != nil {
 		sf = fmt.Sprint(cs.StatFail.Code)
 	}
-	return fmt.Sprintf("%s %s %s/%s/%d rw%d S%d o%d L%d w%d cap%d np%d f%v sf%s sfa%d", cs.Srv, cs.Cfg, cs.API, cs.Src, cs.RFC, xfB(cs.RW),
+	t := fmt.Sprintf("%s %s %s/%s/%d rw%d S%d o%d L%d w%d cap%d np%d f%v sf%s sfa%d", cs.Srv, cs.Cfg, cs.API, cs.Src, cs.RFC, xfB(cs.RW),
 		cs.FileLen, cs.Off, cs.Len, cs.Window, cs.ShortCap, xfB(cs.NoPerm), fk, sf, cs.SrcFailAfter)
+	if cs.Open != "" {
+		t += fmt.Sprintf(" open=%s pre%d", cs.Open, cs.PreLen)
+	}
+	return t
+}
+
+// Mode is the open mode of the case.
+func (cs xfCase) Mode() xfOpenMode {
+	name := cs.Open
+	if name == "" {
+		switch {
+		case cs.RW:
+			name = "rdwr+creat"
+		case cs.IsRead():
+			name = "rdonly"
+		default:
+			name = "wronly+creat"
+		}
+	}
+	m, ok := xfOpenModeByName(name)
+	if !ok {
+		return xfOpenMode{Name: "unknown:" + name}
+	}
+	return m
+}
+
+// ReadsRefused: the transfer reads through a handle the request server opened with Filewrite because its FilePut
+// handler is no OpenFileWriter (any of WRITE, APPEND, CREAT, TRUNC in the flags sends the open there): such a handle
+// serves no READ.
+func (cs xfCase) ReadsRefused() bool {
+	return cs.Srv.Kind == "rs" && cs.Srv.NoOFW && cs.IsRead() && cs.Mode().Wire&^wire.FRead != 0
 }
 
 func (cs xfCase) IsRead() bool { return cs.API == "ReadAt" || cs.API == "Read" || cs.API == "WriteTo" }
@@ -135,6 +170,12 @@ func (cs xfCase) failMap() map[int64]xfFail {
 
 type xfOutcome struct {
 	SetupErr  error
+	OpenErr   error  // the open itself answered an error (expected for the O_EXCL-on-existing modes)
+	OpenWire  uint32 // scripted peer: the pflags word of the OPEN request
+	OpenSeen  bool   // … and whether one was recorded
+	HandlerOp xfMemOpen
+	AtOpen    []byte // modes that empty the file: what the name holds right after the open
+	AtOpenSet bool
 	Hang      bool
 	Panic     any
 	N         int64
@@ -197,13 +238,24 @@ func xfExec(cs xfCase, real *xfReal, srcDir string, hold *xfPeerHold) (out xfOut
 	} else {
 		xfInflight(0, cs)
 	}
+	mode := cs.Mode()
+	if mode.Wire == 0 {
+		out.SetupErr = errors.New("unknown open mode " + mode.Name)
+		return
+	}
 	initial := xfFilePat(cs.FileLen)
+	if mode.Empties() {
+		initial = xfFilePat(cs.PreLen) // what the name holds before the open empties it
+	}
 	var cli *sftp.Client
 	var peer *xfPeer
 	path := "/f"
 	if cs.Srv.Kind == "peer" {
-		po := xfPeerOpts{File: initial, Exists: true, Window: 1, PermSeed: cs.PermSeed, ShortCap: cs.ShortCap, NoPerm: cs.NoPerm}
-		if peer = hold.get(cs.Cfg, po, cs.FileLen+cs.Len); peer == nil {
+		po := xfPeerOpts{File: initial, Exists: !mode.Fresh, Window: 1, PermSeed: cs.PermSeed, ShortCap: cs.ShortCap, NoPerm: cs.NoPerm}
+		if mode.Fresh {
+			po.File = nil
+		}
+		if peer = hold.get(cs.Cfg, po, cs.FileLen+cs.PreLen+cs.Len); peer == nil {
 			var err error
 			peer, err = xfNewPeer(cs.Cfg, po)
 			if err != nil {
@@ -226,24 +278,51 @@ func xfExec(cs xfCase, real *xfReal, srcDir string, hold *xfPeerHold) (out xfOut
 	} else {
 		cli = real.Cli
 		path = real.Path("f")
-		if err := real.Put("f", initial); err != nil {
+		var err error
+		if mode.Fresh {
+			err = real.Remove("f")
+		} else {
+			err = real.Put("f", initial)
+		}
+		if err != nil {
 			out.SetupErr = err
 			return
 		}
 	}
-	flags := os.O_RDONLY
-	if !cs.IsRead() {
-		flags = os.O_WRONLY | os.O_CREATE
-	}
-	if cs.RW {
-		flags = os.O_RDWR | os.O_CREATE
-	}
 	var f *sftp.File
-	if ok, _ := xfGuard(func() { f, out.SetupErr = cli.OpenFile(path, flags) }); !ok {
+	if ok, _ := xfGuard(func() { f, out.OpenErr = mode.Open(cli, path) }); !ok {
+		out.OpenErr = nil
 		out.SetupErr = errors.New("open: " + xfErrHang.Error())
-	}
-	if out.SetupErr != nil {
 		return
+	}
+	if peer != nil {
+		for _, q := range peer.Log() {
+			if q.Typ == wire.Open {
+				out.OpenWire, out.OpenSeen = uint32(q.Len), true
+			}
+		}
+	} else if real.Mem != nil {
+		out.HandlerOp = real.Mem.LastOpen()
+	}
+	if out.OpenErr != nil || mode.Refuse {
+		// nothing to transfer through; what the name holds now is all there is to look at
+		if f != nil {
+			xfGuard(func() { f.Close() })
+		}
+		if peer != nil {
+			out.FileAfter = peer.Get()
+		} else {
+			out.FileAfter, _ = real.Get("f")
+			out.LeftOpen = real.OpenHandles()
+		}
+		return
+	}
+	if mode.Empties() {
+		if peer != nil {
+			out.AtOpen, out.AtOpenSet = peer.Get(), true
+		} else if b, err := real.Get("f"); err == nil {
+			out.AtOpen, out.AtOpenSet = b, true
+		}
 	}
 	implicit := cs.API != "ReadAt" && cs.API != "WriteAt"
 	if implicit && cs.Off != 0 {
